@@ -598,13 +598,20 @@ func (e *Engine) step(fr *frame, in ssa.Instruction) {
 					}
 				}
 				if e.job.MapOrder && !e.concrete && len(live) > 1 {
-					if len(live) > 5 {
+					if len(live) > 8 {
 						unsup("map order fork over %d entries", len(live))
 					}
-					for len(live) > 0 {
-						j := e.chooseN(len(live))
-						it.order = append(it.order, live[j])
-						live = append(live[:j:j], live[j+1:]...)
+					if e.job.MapOrderMode == "permutations" {
+						for len(live) > 0 {
+							j := e.chooseN(len(live))
+							it.order = append(it.order, live[j])
+							live = append(live[:j:j], live[j+1:]...)
+						}
+					} else {
+						// what the go1.23 runtime does for a map that fits one bucket (<= 8 entries): iteration
+						// starts at a random slot and wraps around, i.e. a rotation of the slot order
+						r := e.chooseN(len(live))
+						it.order = append(append([]int{}, live[r:]...), live[:r]...)
 					}
 				} else {
 					it.order = live
@@ -916,6 +923,15 @@ func (e *Engine) mapSet(m *MapObj, k, v Val) {
 	if i, ok := m.idx[ck]; ok {
 		m.vals[i] = copyVal(v)
 		return
+	}
+	// like the runtime, reuse the first free slot (matters for the iteration order after deletions)
+	for i := range m.keys {
+		if m.dead[i] {
+			delete(m.dead, i)
+			m.idx[ck] = i
+			m.keys[i], m.vals[i] = copyVal(k), copyVal(v)
+			return
+		}
 	}
 	m.idx[ck] = len(m.keys)
 	m.keys = append(m.keys, copyVal(k))
